@@ -169,7 +169,7 @@ CLI_MODELLED = [
 ]
 
 PROPS = {
-    "C09": {"engine": "cli", "extra_engines": ["run"], "modelled": [m.replace("%s", "C09") for m in CLI_MODELLED],
+    "C09": {"engine": "cli", "extra_engines": ["run"], "extra_props": ["C01"], "modelled": [m.replace("%s", "C09") for m in CLI_MODELLED],
             "assumptions": ["the cache clause (a failed task records nothing) is the theorem C09_failure_not_recorded of the run engine (Props/C01.lean); here it is observed end to end: a task that failed is executed again by the next invocation",
                             "generated commands are deterministic and have no side effect other than appending to the log outside the sandbox"]},
     "C19": {"engine": "cli", "extra_engines": ["env"], "modelled": [m.replace("%s", "C19") for m in CLI_MODELLED],
